@@ -20,10 +20,10 @@ ctest --test-dir build -j16 2>&1 | tail -3 >> $log
 echo "== demo with the change (expected to fail)" >> $log
 ( sh _mut/demo_build.txt; echo "exit=$?" ) 2>&1 | tail -5 >> $log
 if ! grep -q "_mut/demo\b.*&&\|&& .*_mut/demo" _mut/demo_build.txt; then ( ./_mut/demo; echo "exit=$?" ) 2>&1 | tail -5 >> $log; fi
-git stash -q -- libs
+git apply -R $out/patch.diff
 ninja -C build >> /dev/null 2>&1
 echo "== demo without the change (expected to pass)" >> $log
 ( sh _mut/demo_build.txt; echo "exit=$?" ) 2>&1 | tail -5 >> $log
 if ! grep -q "_mut/demo\b.*&&\|&& .*_mut/demo" _mut/demo_build.txt; then ( ./_mut/demo; echo "exit=$?" ) 2>&1 | tail -5 >> $log; fi
-git stash pop -q
+git apply $out/patch.diff
 cat $log
